@@ -44,6 +44,7 @@ REVERTS = [
     ('F44-v3-signature-subpacket-push', '1db2fe1', {'C05': ['S05-13:adjusts-only-what-is-written:packet::signature::types::Signature::unhashed_subpacket_insert:unhashed_subpackets']}),
     ('F45-mpi-bit-count-truncated', 'e4348ba', {'C05': ['cast:<types::mpi::Mpi as ser::Serialize>::to_writer:u16#1']}),
     ('F47-read-again-after-error-panics', 'fc88375', {'C04': ['poison:returns-error:<armor::reader::Dearmor<R> as std::io::Read>::read:Part::Temp#1', 'poison:returns-error:composed::message::reader::literal::LiteralDataReader::<R>::fill_inner:via:is_done#1']}),
+    ('F48-aead-decryptor-no-error-latch', 'a114df8', {'C03': ['v2:sticky-error'], 'C09': ['v2:sticky-error']}),
     ('F23-boolean-subpackets', '1b5ba7a', {'C05': ['S05-8:lossless-bool'], 'C02': ['S05-8:lossless-bool']}),
 ]
 tests = [dict(name='revert:' + n, kind='revert-fix', commit=c, expect=e) for n, c, e in REVERTS]
